@@ -22,7 +22,7 @@ for d,out in zip(dirs,outs):
         if m: cur=m.group(1); rep[cur]=[]; continue
         if l.startswith('PROP'): cur=None; continue
         if cur and l.startswith('    ['):
-            m=re.match(r'\s+\[(\w+)\] (\S+?):',l)
+            m=re.match(r'\s+\[(\w+)\] ([A-Z][A-Z0-9-]+)',l)
             kind=m.group(1) if m else '?'; rule=m.group(2) if m else '?'
             rep[cur].append((kind,rule,l.strip()[:300]))
     own=rep.get(pid,[])
